@@ -8,8 +8,9 @@
 (*   order: two sleeps on one vCPU that both run to their deadline wake in deadline order when the later-deadline one  *)
 (*          was invoked after the earlier-deadline one (the earlier deadline cannot be passed over in an expiry pass); *)
 (*   Quiesce: no thread is left in any sleep queue; a Hang (a finite sleeper that never woke) has no action.           *)
-(* KF_F2 (environment KF_F2=1) additionally accepts the recorded defect F2: a reason left by an interrupt that had     *)
-(* completed before the sleep was invoked (target was READY) is returned by that later sleep.                          *)
+(* KF_F2 (environment KF_F2=1) additionally accepts the recorded defect F2, and only it: a reason left by an interrupt *)
+(* that had completed before the sleep was invoked AND whose target was READY (state 0) when thread_interrupt() looked  *)
+(* at it, is returned by that thread's later sleep.                                                                    *)
 EXTENDS Naturals, Integers, Sequences, FiniteSets, TLC, Json, IOUtils
 Tr == ndJsonDeserialize(IOEnv.TRACE)
 KF_F2 == "KF_F2" \in DOMAIN IOEnv /\ IOEnv.KF_F2 = "1"
@@ -27,11 +28,13 @@ Inv == /\ Ev("Inv") /\ pend[R.t].op = "none"
                  /\ UNCHANGED intrs
             [] R.op = "interrupt" ->
                  /\ pend' = [pend EXCEPT ![R.t] = [NoOp EXCEPT !.op = "interrupt", !.e = R.err, !.target = R.target]]
-                 /\ intrs' = intrs \cup {[e |-> R.err, target |-> R.target, rpos |-> 0, used |-> FALSE]}
+                 /\ intrs' = intrs \cup {[e |-> R.err, target |-> R.target, rpos |-> 0, used |-> FALSE, st |-> R.st]}
             [] R.op = "yield" -> pend' = [pend EXCEPT ![R.t] = [NoOp EXCEPT !.op = "yield"]] /\ UNCHANGED intrs
 Deliverable(i, t, en) ==
-  /\ i.target = t /\ i.e = en /\ ~i.used
-  /\ (KF_F2 \/ i.rpos = 0 \/ i.rpos > pend[t].pos)
+  /\ i.target = t /\ i.e = en
+  /\ \/ ~i.used /\ (i.rpos = 0 \/ i.rpos > pend[t].pos)
+     \/ KF_F2 /\ i.st = 0 /\ i.rpos # 0 /\ i.rpos < pend[t].pos    \* F2: stale reason of an interrupt to a READY thread (possibly
+                                                                    \* already reported once by the yield it interrupted)
 Overtakes(a, b) ==     \* sleep a (returning 0 now) passes over pending sleep b
   /\ pend[b].op = "usleep" /\ b # a /\ pend[b].v = pend[a].v
   /\ pend[b].pos < pend[a].pos /\ pend[b].exp >= 0 /\ pend[a].exp >= 0 /\ pend[b].exp < pend[a].exp
